@@ -1,15 +1,23 @@
 package c12
 
-import "verifharness/internal/core"
+import (
+	"time"
+
+	"verifharness/internal/core"
+)
 
 func init() { core.RegisterProp("C12", run) }
 
 func run(r *core.Run) {
 	r.Rule = "generated wire values (structured: writer output + suffix; boundary: every encoding threshold; malformed: markers × short lengths, huge declared lengths, random bytes); a case is non-trivial when the input is non-empty; distinct by input bytes"
-	runCorpus(r)
-	runLenEnc(r)
-	runPg(r)
-	runMysql(r)
-	runBytea(r)
-	runPgExt(r)
+	ms := map[string]int64{}
+	for _, sec := range []struct {
+		name string
+		f    func(*core.Run)
+	}{{"runCorpus", runCorpus}, {"runLenEnc", runLenEnc}, {"runPg", runPg}, {"runMysql", runMysql}, {"runBytea", runBytea}, {"runPgExt", runPgExt}, {"runPgDescribe", runPgDescribe}} {
+		t0 := time.Now()
+		sec.f(r)
+		ms[sec.name] = time.Since(t0).Milliseconds()
+	}
+	r.Extra["section_ms"] = ms
 }
